@@ -362,6 +362,13 @@ func execC12(c *Case) {
 		runtime.GOMAXPROCS(cfg.gomaxprocs)
 		verifhook.SetSeed(cfg.jitter, 400)
 		res := run(cfg)
+		if res.status == "timeout" {
+			// a run that did not finish within its limit is repeated once with the same configuration: a hang that
+			// belongs to the code shows again (same input, same jitter seed, same thread counts), a pause of the machine
+			// (other checks, a snapshot of the sandbox) does not. The first attempt is kept in the evidence as a tag.
+			c.Tag("timeout-retried")
+			res = run(cfg)
+		}
 		verifhook.Disable()
 		if i == 0 {
 			first = res
